@@ -35,7 +35,7 @@ func parseRaceLogs(files []string) []raceReport {
 			var firsts []string
 			engine := false
 			for _, st := range strings.Split(blk, "\n\n") {
-				lines := strings.Split(st, "\n")
+				lines := strings.Split(strings.TrimLeft(st, "\n"), "\n")
 				if len(lines) == 0 {
 					continue
 				}
